@@ -61,8 +61,8 @@ def run(ctx):
     # TLC-generated schedules of the goroutine-level model stepped through the real goroutines (gate hooks, build tag verif)
     from checks import gate_common
     cfgs = [(3, 2, 150, 150), (4, 3, 60, 100), (2, 1, 40, 40), (5, 2, 0, 60)] if quick else \
-           [(3, 2, 1500, 1000), (4, 3, 600, 600), (2, 1, 200, 200), (5, 2, 300, 400), (4, 1, 200, 200), (6, 3, 100, 300)]
-    n3, _ = gate_common.gate_replay(ctx, cfgs, cancel_every=4 if quick else 1)
+           [(3, 2, 600, 400), (4, 3, 300, 300), (2, 1, 100, 100), (5, 2, 150, 200), (4, 1, 100, 100), (6, 3, 50, 100)]
+    n3, _ = gate_common.gate_replay(ctx, cfgs, cancel_every=4 if quick else 2)
     ctx.count(0, [("run", i) for i in range(nruns + n2 + n3)])
     for r0 in vf.split_runs(vf.read_ndjson(trace))[:2]:
         ctx.sample(r0[:60])
